@@ -496,6 +496,10 @@ class Prog:
                 self.impls.append(im)
         self._callers = None
         self._closures = None
+        # helper functions that the reference tree does not have are inlined into their callers (see inline.py)
+        if not os.environ.get('VERIF_NO_INLINE'):
+            import inline
+            inline.apply(self, os.path.dirname(os.path.dirname(os.path.abspath(__file__))))
 
     def body(self, path):
         b = self.bodies.get(path)
